@@ -34,5 +34,23 @@ fn main() {
             }
         }
     }
+    // elapsed time: after k increments (k = 0..=40, so also from a saturated backoff) the reset interval (<= max_reset =
+    // 180 s in the default configuration) has passed; the next increment must bring the value back to the initial value
+    for s in 0..8u8 {
+        for k in 0..=40usize {
+            let mut b = backoff::Backoff::new(backoff::Config::default(), ChaCha20Rng::from_seed([s; 32]));
+            for _ in 0..k { b.increment(); }
+            let before = b.verif_value();
+            b.verif_age(Duration::from_secs(181));
+            b.increment();
+            n += 1;
+            let v = b.verif_value();
+            if v != initial && reported.insert("not-reset-after-the-reset-interval-elapsed") {
+                rp_core::report(true, "not-reset-after-the-reset-interval-elapsed", json!({"config": "default", "rng_seed_byte": s, "increments_before": k, "then": "181 s pass, increment()"}),
+                    json!({"value_before_ms": before.as_millis() as u64, "value_after_ms": v.as_millis() as u64, "initial_ms": 0}),
+                    &["backoff::Backoff::increment.ensures#resets_when_elapsed"]);
+            }
+        }
+    }
     println!("{}", json!({"summary": true, "evaluations": n, "violating_classes": reported}));
 }
